@@ -559,7 +559,7 @@ impl Family for BadAuthFam {
         ]
     }
     fn strategy(&self, tier: Tier) -> BoxedStrategy<BadAuthCase> {
-        let pause = if tier == Tier::Thorough { prop_oneof![8 => Just(0u8), 2 => Just(6u8), 1 => Just(12u8), 1 => Just(35u8), 1 => Just(65u8)].boxed() } else { prop_oneof![14 => Just(0u8), 1 => Just(6u8)].boxed() };
+        let pause = if tier == Tier::Thorough { prop_oneof![16 => Just(0u8), 2 => Just(6u8), 1 => Just(12u8), 1 => Just(35u8), 1 => Just(65u8)].boxed() } else { prop_oneof![14 => Just(0u8), 1 => Just(6u8)].boxed() };
         (proptest::option::weighted(0.6, any::<u8>()), prop_oneof![Just(0u16), Just(1), Just(30), Just(255), Just(256), Just(4000), Just(65535)], proptest::option::weighted(0.25, any::<u16>()), any::<bool>(), pause)
             .prop_map(|(flip_bit, declared, truncate, one_by_one, pause_s)| BadAuthCase { flip_bit, declared, truncate, one_by_one, pause_s })
             .boxed()
